@@ -52,6 +52,12 @@ Section Eqs.
       cbn [mmap]. destruct (is_none x && (df_min f <=? 0)); [apply IH|]. f_equal. apply IH.
   Qed.
 
+  Lemma spositional_eq ffs fs : spositional c U st ffs fs = mlist ffs fs.
+  Proof.
+    unfold spositional. revert ffs. induction fs as [|x s IH]; intros [|f r]; try reflexivity.
+    cbn [mlist]. f_equal. apply IH.
+  Qed.
+
   Lemma senc_obj multi t d fs :
     senc' multi t (DObj d fs)
     = match dflat U d, dname U d with
